@@ -299,6 +299,34 @@ def case_iprint(spec, out):
                 out.violate("logging_changes_result", f"iprint {P.spec['family']}: iprint={ip} logger={'capturing' if lg else None} gives digest {d[:12]} "
                             f"!= {ref[:12]} (iprint=-1, no logger)", kind="iprint", iprint=ip, logger=lg)
                 return
+    # ... nor on what a LATER call sees: the stop criteria are given as stateful callables (a schedule handing out the next target / the
+    # next tolerance each time it is asked); the two-call sequence must come out the same under every logging configuration
+    f0 = P.f(np.clip(P.x0, P.lb, P.ub))
+    if np.isfinite(f0):
+        ref2 = None
+        for ip in (-1, 1, 101):
+            for lg in (False, True):
+                sched = {"k": 0}
+
+                def next_target(sched=sched):
+                    sched["k"] += 1
+                    return float(f0) - 0.05 * sched["k"] * (abs(float(f0)) + 1.0)
+
+                def next_gtol(sched=sched):
+                    sched["k"] += 1
+                    return 10.0 ** (-4 - sched["k"] % 5)
+
+                a = probes.run_min(P, dict(spec["cfg"], iprint=ip, logger=lg, maxiter=4), hooks={"ftarget_obj": next_target, "gtol_obj": next_gtol})
+                b = probes.run_min(P, dict(spec["cfg"], iprint=ip, logger=lg), hooks={"ftarget_obj": next_target, "gtol_obj": next_gtol})
+                out.count("iprint_runs", 2)
+                out.count("two_call_sequences_sharing_stateful_stop_criteria")
+                d2 = digest_of(a) + digest_of(b)
+                if ref2 is None:
+                    ref2 = d2
+                elif d2 != ref2:
+                    out.violate("logging_changes_result", f"iprint {P.spec['family']}: two calls sharing stateful callable stop criteria: with iprint={ip} logger="
+                                f"{'capturing' if lg else None} the pair of results differs from the one obtained with iprint=-1 and no logger", kind="iprint", iprint=ip, logger=lg)
+                    return
     out.nontrivial = True
 
 
